@@ -22,7 +22,10 @@ def batch_rules(run, db):
     (same callee, same arguments, same keyword flags)."""
     import copy
     f = db.func('prysm.thinfilm.multilayer_stack_rt')
-    ifs = [n for n in walk_no_nested(f.node) if isinstance(n, ast.If) and ast.unparse(n.test).replace(' ', '') == 'angles.ndim>1' and n.orelse]
+    from ..core.pattern import find
+    # the batched/scalar pairs are the two-armed tests `<layer angle array>.ndim > 1`; the array is the local the Snell angles are stored into
+    tests = {id(t_) for b_, t_ in find(f.node, 'V_a.ndim > 1') if b_['V_a'] not in f.params}
+    ifs = [n for n in walk_no_nested(f.node) if isinstance(n, ast.If) and id(n.test) in tests and n.orelse]
     if len(ifs) < 3:
         raise AnalysisError('multilayer_stack_rt: expected three batched/scalar branch pairs, found %d' % len(ifs))
 
